@@ -10,7 +10,7 @@ WT = "/tmp/mech_eval_wt"
 ENV = dict(os.environ, GOFLAGS="-mod=mod", GOPROXY="off", GOSUMDB="off", GOTOOLCHAIN="local")
 args = [a for a in sys.argv[1:] if a != "--test"]
 runtests = "--test" in sys.argv
-KINDS = ["rename-locals", "rotate-select", "invert-if", "nest-else", "swap-compare", "reverse-decls", "switch-to-if", "split-and", "unlock-to-defer"]
+KINDS = ["range-to-index", "rename-locals", "rotate-select", "invert-if", "nest-else", "swap-compare", "reverse-decls", "switch-to-if", "split-and", "unlock-to-defer"]
 kinds = args or KINDS + ["all"]
 claimed = [c["property_id"] for c in json.load(open("MANIFEST.json"))["checks"]]
 subprocess.run(["git", "-C", "/repo", "worktree", "remove", "--force", WT], capture_output=True)
@@ -21,7 +21,7 @@ try:
     for kind in kinds:
         rec = {"rewrites": {}}
         for k in (KINDS if kind == "all" else [kind]):
-            out = subprocess.run(["./bin/mverif", "mech", k, "--repo", WT], capture_output=True, text=True, env=ENV).stdout
+            out = subprocess.run([os.environ.get("MVERIF_BIN", "./bin/mverif"), "mech", k, "--repo", WT], capture_output=True, text=True, env=ENV).stdout
             for l in out.splitlines():
                 if l.startswith(k + ":"):
                     rec["rewrites"][k] = int(l.split()[1])
@@ -39,7 +39,7 @@ try:
         for p in claimed:
             os.makedirs("/tmp/mech_scratch_" + p, exist_ok=True)
             shutil.copy("known_findings.json", "/tmp/mech_scratch_" + p + "/known_findings.json")
-        procs = {p: subprocess.Popen(["./bin/mverif", "check", p, "--tier", "quick", "--repo", WT, "--verif", "/tmp/mech_scratch_" + p], stdout=subprocess.PIPE, stderr=subprocess.STDOUT, text=True, env=ENV) for p in claimed}
+        procs = {p: subprocess.Popen([os.environ.get("MVERIF_BIN", "./bin/mverif"), "check", p, "--tier", "quick", "--repo", WT, "--verif", "/tmp/mech_scratch_" + p], stdout=subprocess.PIPE, stderr=subprocess.STDOUT, text=True, env=ENV) for p in claimed}
         for p, pr in procs.items():
             out = pr.communicate()[0]
             if pr.returncode != 0:
